@@ -30,6 +30,7 @@ var argKinds = []struct {
 	{"boolean", []string{"true", "false"}},
 	{"null", []string{"null"}},
 	{"array", []string{"[1,2,3]", "[]", `["a","b"]`, "[1]", `[{"a":1},{"a":2}]`}},
+	{"integer-array", []string{`[$count([1,2]), 1.5, $length("abc")]`, `["ab","c"].$length($)`, `$map([5,6], function($v,$i){$i})`, `[$length("a"), $length("")]`}},
 	{"nested-array", []string{"[[1,2],[3]]", "[[]]", `[[["x"]],1]`}},
 	{"object", []string{`{"a":1}`, "{}", `{"a":{"b":[1,2]},"c":"x"}`}},
 	{"function", []string{"$sum", "function($x){$x}", "function($x,$y){$x}", "$substring(?,1)", "/a/", "function(){1}", "($string ~> $uppercase)", "|$|{\"t\":1}|"}},
@@ -198,7 +199,7 @@ func decodeDoc(doc string) interface{} {
 }
 
 func init() {
-	rule := "cases: (a) systematic sweep of every built-in x every arity 0..min(declared+1,3) x every tuple of 10 argument kinds (number,string,boolean,null,array,nested array,object,function,missing,input path), exhaustive over kind tuples; " +
+	rule := "cases: (a) systematic sweep of every built-in x every arity 0..min(declared+1,3) x every tuple of 11 argument kinds (number,string,boolean,null,array,array of Go integers as the library produces them,nested array,object,function,missing,input path), exhaustive over kind tuples; " +
 		"(b) PRNG-generated type-chaotic programs of depth 3..6 over every node type (paths, wildcards, predicates, sorts, groupings, transforms, lambdas with signatures, partials, chains, functions used as data, bounded recursion) on generated JSON documents with nulls, empty containers and arrays nested in arrays. " +
 		"(c) every fourth generated case probes the edges of the picture grammars and of the matcher protocol: $fromMillis/$toMillis with generated date pictures (width modifiers up to 100 and malformed, presentation strings of up to 70 digits, non-ASCII digit families) over extreme instants, $formatNumber with pictures of up to 70+70 digits, 25-digit exponents, 300 mandatory digits and malformed pictures over extreme doubles, $formatBase/$round/$number at the edges of their domains, and $split/$replace/$match/$contains called with user-written matcher functions whose match/start/end/groups/next fields are ill-typed, out of range, out of order or absent, and name steps, predicates, wildcards and compositions on function values (direct, and stored by value after $distinct/$sort/$single/$reverse) whose names coincide with the fields of the evaluator's function objects. " +
 		"non-trivial = the program compiled and Eval was actually entered (compile errors are not counted); distinct by (program text, input)"
